@@ -11,6 +11,19 @@ package main
 import (
 	"fmt"
 
+	v1 "k8s.io/api/core/v1"
+	metav1 "k8s.io/apimachinery/pkg/apis/meta/v1"
+	"k8s.io/apimachinery/pkg/types"
+	"k8s.io/apimachinery/pkg/util/sets"
+
+	"volcano.sh/apis/pkg/apis/scheduling"
+	"volcano.sh/volcano/pkg/scheduler/api"
+	"volcano.sh/volcano/pkg/scheduler/cache"
+	"volcano.sh/volcano/pkg/scheduler/conf"
+	"volcano.sh/volcano/pkg/scheduler/framework"
+	"volcano.sh/volcano/pkg/scheduler/plugins"
+	"volcano.sh/volcano/pkg/scheduler/plugins/gang"
+
 	"verif/harness/internal/sched"
 	"verif/harness/internal/vh"
 )
@@ -36,7 +49,12 @@ func main() {
 		if f10Pattern(in) {
 			sig = SigF10
 		}
-		base.Laws(sel, in, got, func(lsel int, lin []int64, _ string) { law(lsel, lin, sig) })
+		base.Laws(sel, in, got, func(lsel int, lin []int64, _ string) {
+			law(lsel, lin, sig)
+			// the guard of bind_only_when_gang_ok along the model's replay of this very execution
+			// (claimed only for action lists with at most one allocate: Entry.law_guard)
+			law(104, lin, "")
+		})
 	}
 	h.Gen = func(rng *vh.Rng, n int, emit func(id string, sel int, in []int64, kind string, nontrivial bool, desc any)) {
 		base.Gen(rng, n, emit)
@@ -129,10 +147,194 @@ func genF10(rng *vh.Rng, n int, emit func(id string, sel int, in []int64, kind s
 	}
 }
 
+// ---------- consecutive cycles ----------
+
+// nextSpec feeds a cycle's binds back: a bound task is a Bound or Running pod on its node in
+// the next snapshot; everything the session only held tentatively is Pending again.
+func nextSpec(r *vh.Rng, spec sched.CycleSpec) (sched.CycleSpec, int) {
+	cw := sched.NewCycleWorld(spec)
+	cw.RunActions()
+	node := map[int64]int64{}
+	for _, e := range cw.Trace {
+		if e.Kind == 2 {
+			node[e.Task] = e.Node
+		}
+	}
+	next := spec
+	next.Tasks = nil
+	for _, t := range spec.Tasks {
+		if n, ok := node[t.ID]; ok {
+			t.Status = vh.Pick(r, []int64{sched.SBound, sched.SRunning, sched.SRunning})
+			t.Node = n
+		} else if t.Status == sched.SReleasing && r.Chance(1, 2) {
+			continue // the terminating pod is gone
+		}
+		next.Tasks = append(next.Tasks, t)
+	}
+	next.PGPhase = map[int64]int64{}
+	for k, v := range spec.PGPhase {
+		next.PGPhase[k] = v
+	}
+	return next, len(node)
+}
+
 func genNext(rng *vh.Rng, n int, emit func(id string, sel int, in []int64, kind string, nontrivial bool, desc any)) {
+	for i := 0; i < n; i++ {
+		r := rng.Fork()
+		spec := sched.GenCycle(r, false)
+		for c := 2; c <= 3; c++ {
+			var fed int
+			spec, fed = nextSpec(r, spec)
+			spec.Actions = vh.Pick(r, [][]int64{{1}, {1, 2}, {2, 1}, {1}})
+			emit(fmt.Sprintf("next-%d-c%d", i, c), 1, spec.Enc(sched.EpsUnits), fmt.Sprintf("next/cycle=%d", c), fed > 0,
+				map[string]any{"cycle": c, "binds_fed_back": fed, "tasks": len(spec.Tasks)})
+		}
+	}
+}
+
+// ---------- pure readiness ----------
+
+// input of selector 2: eps, job spec (id queue min roleMin[]), tasks (the cycle task encoding)
+func encReady(j sched.JobSpec, ts []sched.TaskSpec) []int64 {
+	out := []int64{sched.EpsUnits, j.ID, j.Queue, j.Min, int64(len(j.RoleMin))}
+	for _, rm := range j.RoleMin {
+		out = append(out, rm[0], rm[1])
+	}
+	out = append(out, int64(len(ts)))
+	for _, t := range ts {
+		out = append(out, t.ID, t.Job, t.Role, t.Prio, t.CPU, t.Mem, t.GPU, t.Status, t.Node, 0)
+	}
+	return out
 }
 
 func genReady(rng *vh.Rng, n int, emit func(id string, sel int, in []int64, kind string, nontrivial bool, desc any)) {
+	for i := 0; i < n; i++ {
+		r := rng.Fork()
+		roles := r.Range(1, 3)
+		nt := r.Range(0, 12)
+		j := sched.JobSpec{ID: 1, Queue: 1}
+		ts := []sched.TaskSpec{}
+		per := map[int64]int64{}
+		for k := 1; k <= nt; k++ {
+			t := sched.TaskSpec{ID: int64(k), Job: 1, Role: int64(r.Range(1, roles)), Status: int64(r.Range(1, 10))}
+			if r.Chance(1, 4) {
+				t.Status = sched.SPending
+			}
+			if !r.Chance(1, 3) {
+				t.CPU = int64(r.Range(1, 4)) * 250
+			}
+			if t.Status != sched.SPending && t.Status != sched.SFailed && t.Status != sched.SSucceeded && t.Status != sched.SUnknown {
+				t.Node = 1
+			}
+			per[t.Role]++
+			ts = append(ts, t)
+		}
+		total := int64(0)
+		if r.Chance(2, 3) {
+			for role := int64(1); role <= int64(roles); role++ {
+				if r.Chance(2, 3) {
+					m := int64(r.Range(0, int(per[role])+1))
+					j.RoleMin = append(j.RoleMin, [2]int64{role, m})
+					total += m
+				}
+			}
+		}
+		switch r.Intn(5) {
+		case 0:
+			j.Min = total
+		case 1:
+			j.Min = total + 1
+		case 2:
+			if total > 0 {
+				j.Min = total - 1
+			}
+		case 3:
+			j.Min = int64(nt)
+		default:
+			j.Min = int64(r.Range(0, nt+1))
+		}
+		shape := "below"
+		if j.Min == total {
+			shape = "equal"
+		} else if j.Min > total {
+			shape = "above"
+		}
+		emit(fmt.Sprintf("ready-%d", i), 2, encReady(j, ts), fmt.Sprintf("ready/roles=%d/min-vs-roletotal=%s", len(j.RoleMin), shape),
+			nt >= 2, map[string]any{"tasks": nt, "min": j.Min, "roleMin": j.RoleMin})
+	}
 }
 
-func runReady(in []int64) []int64 { return nil }
+var readyCache *cache.SchedulerCache
+
+// runReady builds the real JobInfo, opens a session with ONLY the gang plugin and asks the
+// session's JobReady / JobPipelined / JobStarving / JobValid.
+func runReady(in []int64) []int64 {
+	r := &sched.Tok{T: in}
+	_ = r.Next()
+	j := sched.JobSpec{ID: r.Next(), Queue: r.Next(), Min: r.Next()}
+	r.List(func() { j.RoleMin = append(j.RoleMin, [2]int64{r.Next(), r.Next()}) })
+	ts := []sched.TaskSpec{}
+	r.List(func() {
+		ts = append(ts, sched.TaskSpec{ID: r.Next(), Job: r.Next(), Role: r.Next(), Prio: r.Next(), CPU: r.Next(), Mem: r.Next(),
+			GPU: r.Next(), Status: r.Next(), Node: r.Next(), Preemptable: r.Bool()})
+	})
+	ji := api.NewJobInfo(sched.JobID(j.ID))
+	pg := &api.PodGroup{PodGroup: scheduling.PodGroup{
+		ObjectMeta: metav1.ObjectMeta{Name: sched.JobName(j.ID), Namespace: "ns", UID: types.UID(sched.JobName(j.ID))},
+		Spec:       scheduling.PodGroupSpec{MinMember: int32(j.Min), Queue: sched.QueueName(j.Queue), MinTaskMember: map[string]int32{}},
+		Status:     scheduling.PodGroupStatus{Phase: scheduling.PodGroupInqueue},
+	}}
+	for _, rm := range j.RoleMin {
+		pg.Spec.MinTaskMember[sched.RoleName(rm[0])] = int32(rm[1])
+	}
+	ji.SetPodGroup(pg)
+	for _, t := range ts {
+		want := t.Status
+		switch want {
+		case sched.SAllocated, sched.SPipelined, sched.SBinding:
+			// statuses no pod can have: a Pending pod, then UpdateTaskStatus as the session does
+			t.Status = sched.SPending
+			t.Node = 0
+		}
+		ti := api.NewTaskInfo(t.Pod())
+		ji.AddTaskInfo(ti)
+		if want != t.Status {
+			st := map[int64]api.TaskStatus{sched.SAllocated: api.Allocated, sched.SPipelined: api.Pipelined, sched.SBinding: api.Binding}[want]
+			ji.UpdateTaskStatus(ti, st)
+		}
+		if sched.StatusKey(ti.Status) != want {
+			panic(fmt.Sprintf("task t%d: built status %v, wanted key %d", t.ID, ti.Status, want))
+		}
+	}
+	if readyCache == nil {
+		readyCache = cache.NewDefaultMockSchedulerCache("verif-ready")
+	}
+	q := sched.QueueSpec{ID: j.Queue, Open: true, Weight: 1}
+	qi := api.NewQueueInfo(q.Object())
+	snap := &api.ClusterInfo{
+		Jobs: map[api.JobID]*api.JobInfo{ji.UID: ji}, Nodes: map[string]*api.NodeInfo{},
+		Queues: map[api.QueueID]*api.QueueInfo{qi.UID: qi}, NamespaceInfo: map[api.NamespaceName]*api.NamespaceInfo{},
+		RevocableNodes: map[string]*api.NodeInfo{},
+		HyperNodes:     api.HyperNodeInfoMap{}, HyperNodesSetByTier: map[int]sets.Set[string]{},
+		RealNodesSet: map[string]sets.Set[string]{}, HyperNodeTierNameMap: api.HyperNodeTierNameMap{},
+		CSINodesStatus: map[string]*api.CSINodeStatusInfo{},
+	}
+	sc := &sched.ScriptedCache{SchedulerCache: readyCache, Snap: snap, RefuseBind: map[int64]bool{}, RefuseEvict: map[int64]bool{}}
+	framework.RegisterPluginBuilder(gang.PluginName, gang.New)
+	o := conf.PluginOption{Name: gang.PluginName}
+	plugins.ApplyPluginConfDefaults(&o)
+	ssn := framework.OpenSession(sc, []conf.Tier{{Plugins: []conf.PluginOption{o}}}, nil)
+	valid := int64(0)
+	if vr := ssn.JobValid(ji); vr != nil && !vr.Pass {
+		switch vr.Reason {
+		case "NotEnoughPodsOfTask":
+			valid = 1
+		case "NotEnoughTasks":
+			valid = 2
+		default:
+			valid = 9
+		}
+	}
+	_ = v1.PodPending
+	return []int64{vh.B(ssn.JobReady(ji)), vh.B(ssn.JobPipelined(ji)), vh.B(ssn.JobStarving(ji)), valid}
+}
